@@ -203,3 +203,27 @@ pub fn channel_ops() -> HashMap<usize, (u64, u64)> {
 
 pub use crate::ports::verif_broadcaster::{VQueryBroadcaster, VSlot};
 pub use crate::util::cached_rw_lock::verif::VCachedRwLock;
+
+/// Seeded delays at the protocol points of the multi-threaded executor (worker deactivation, idle detection, task
+/// scheduling).  A delay only perturbs the schedule.
+pub static PROTOCOL_DELAY_US: [std::sync::atomic::AtomicU64; 8] = [
+    std::sync::atomic::AtomicU64::new(0),
+    std::sync::atomic::AtomicU64::new(0),
+    std::sync::atomic::AtomicU64::new(0),
+    std::sync::atomic::AtomicU64::new(0),
+    std::sync::atomic::AtomicU64::new(0),
+    std::sync::atomic::AtomicU64::new(0),
+    std::sync::atomic::AtomicU64::new(0),
+    std::sync::atomic::AtomicU64::new(0),
+];
+
+pub fn set_protocol_delay(point: usize, micros: u64) {
+    PROTOCOL_DELAY_US[point].store(micros, std::sync::atomic::Ordering::Relaxed);
+}
+
+pub(crate) fn protocol_point(point: usize) {
+    let d = PROTOCOL_DELAY_US[point].load(std::sync::atomic::Ordering::Relaxed);
+    if d > 0 {
+        std::thread::sleep(std::time::Duration::from_micros(d));
+    }
+}
